@@ -3,6 +3,7 @@
 -/
 import PurlModel.Lemmas.ParseWF
 import PurlModel.Lemmas.RustUnicode
+import PurlModel.Lemmas.PctComplete
 namespace Purl.C07
 open Purl Purl.Generated
 
@@ -31,6 +32,68 @@ theorem subpath_segments (s sub : Str) (h : decodeSubpath s = .ok sub) :
   intro hne
   rw [h2]
   exact splitOn_joinWith hne (fun p hp => (h3 p hp).2.1)
+
+theorem pctSpx_ne_nil {s w : Str} (h : PctSpx s w) (hw : w ≠ []) : s ≠ [] := by
+  cases h with
+  | nil => exact absurd rfl hw
+  | raw c cs ws _ _ => simp
+  | lit cs ws _ _ => simp
+  | pct c w' cs ws _ _ => simp
+
+/-- THE NAMESPACE DECODER, EXACTLY: the reported namespace is `segs` joined by '/' if and only if the pieces
+between the raw '/' of the input (after trimming) are, one for one, either empty (skipped) or a spelling
+(`PctSpx`: raw chars, whole chars escaped, stray '%') of a segment that contains no '/'.  Nothing else is
+accepted — in particular an escape can neither split a piece into two segments nor join two pieces. -/
+theorem namespace_segments_exactly (s ns : Str) :
+    decodeNamespace s = .ok ns ↔
+      ∃ segs, NsSpx segs (splitOn '/' (trimMatches '/' s)) ∧ ns = joinWith '/' segs := by
+  constructor
+  · intro h
+    obtain ⟨ds, h1, h2, _⟩ := decodeNamespace_spec h
+    exact ⟨ds, (nsDecoded_iff _ _).1 h1, h2⟩
+  · rintro ⟨segs, h, rfl⟩
+    have hne : ∀ d ∈ segs, d ≠ [] := by
+      generalize splitOn '/' (trimMatches '/' s) = ps at h
+      induction h with
+      | nil => simp
+      | empty _ _ _ ih => exact ih
+      | seg s' w segs' ps' hw _ hp _ ih =>
+        intro d hd
+        simp only [List.mem_cons] at hd
+        rcases hd with rfl | hd
+        · exact pctSpx_ne_nil hp hw
+        · exact ih d hd
+    unfold decodeNamespace
+    rw [namespaceSegs_eq, (nsDecoded_iff _ _).2 h]
+    simp only
+    rw [foldl_pushSeg_nil segs hne]
+
+/-- THE SUBPATH DECODER, EXACTLY: as for the namespace, with raw "", "." and ".." pieces skipped and every
+other piece spelling a segment that is not ".", ".." and contains no '/' -/
+theorem subpath_segments_exactly (s sub : Str) :
+    decodeSubpath s = .ok sub ↔
+      ∃ segs, SubSpx segs (splitOn '/' (trimMatches '/' s)) ∧ sub = joinWith '/' segs := by
+  constructor
+  · intro h
+    obtain ⟨ds, h1, h2, _⟩ := decodeSubpath_spec h
+    exact ⟨ds, (subDecoded_iff _ _).1 h1, h2⟩
+  · rintro ⟨segs, h, rfl⟩
+    have hne : ∀ d ∈ segs, d ≠ [] := by
+      generalize splitOn '/' (trimMatches '/' s) = ps at h
+      induction h with
+      | nil => simp
+      | skip _ _ _ _ _ ih => exact ih
+      | seg s' w segs' ps' hw _ hp _ ih =>
+        intro d hd
+        simp only [List.mem_cons] at hd
+        rcases hd with rfl | hd
+        · apply pctSpx_ne_nil hp
+          intro e; subst e; simp [isDotSeg] at hw
+        · exact ih d hd
+    unfold decodeSubpath
+    rw [subpathSegs_eq, (subDecoded_iff _ _).2 h]
+    simp only
+    rw [foldl_pushSeg_nil segs hne]
 
 /-- a piece that decodes to a dot segment or to something containing '/' is refused, not skipped -/
 theorem encoded_dot_or_slash_refused (seg d : Str) (rest : List Str) (acc : Str)
